@@ -85,9 +85,9 @@ def isInfix (n h : Bytes) : Bool :=
 
 /-- the regular expressions the generator writes: "(?i)lit$", "(?i)^lit", "lit" -/
 def reOf (kind : String) (lit : Bytes) : Option (Bytes → Bool) :=
-  if kind = "cs" then some fun u => sufMatch true lit u
-  else if kind = "cp" then some fun u => preMatch true lit u
-  else if kind = "sub" then some fun u => isInfix lit u
+  if kind = "cs" then some (reCaselessSuffix lit)
+  else if kind = "cp" then some (reCaselessPrefix lit)
+  else if kind = "sub" then some fun u => validUtf8 u && isInfix lit u
   else none
 
 def scopeOf (s : String) : Option Scope :=
